@@ -64,7 +64,8 @@ func NewStringFuncSymbol(store Store, name string, f func(id string) *string) En
 		impl: func(tx *bbolt.Tx, rowId []byte) (FieldType, []byte) {
 			result := f(string(rowId))
 			if result == nil {
-				return TypeString, nil
+				// (TypeString, nil) is how the empty string is encoded; a nil result is null
+				return TypeNil, nil
 			}
 			return TypeString, []byte(*result)
 		},
